@@ -489,6 +489,28 @@ func RunJob(t *testing.T, job *Job) *Result {
 		}
 		return res
 	}
+	if job.Mode == "selfdiff" {
+		// debugging aid: execute the run of index From twice with full logs and report the first difference
+		seed := RunSeed(job.BaseSeed, job.Scenario, job.From)
+		cfg := GenCfg{Focus: job.Focus, Tier: job.Tier, Index: job.From}
+		for rep := 0; rep < 20; rep++ {
+			o1 := RunPlan(t, d, d.Gen(NewRand(seed), cfg), seed, true)
+			o2 := RunPlan(t, d, d.Gen(NewRand(seed), cfg), seed, true)
+			if o1.LogHash() != o2.LogHash() {
+				l1, l2 := o1.Log(), o2.Log()
+				for i := 0; i < len(l1) && i < len(l2); i++ {
+					if l1[i] != l2[i] {
+						res.HarnessErr = fmt.Sprintf("rep %d line %d differs:\n  %s\n  %s", rep, i, l1[i], l2[i])
+						return res
+					}
+				}
+				res.HarnessErr = fmt.Sprintf("rep %d: log lengths differ %d vs %d", rep, len(l1), len(l2))
+				return res
+			}
+		}
+		res.HarnessErr = "no difference in 20 double executions"
+		return res
+	}
 	if job.Mode == "minimise" {
 		minimiseFile(t, d, job, res)
 		res.WallS = time.Since(start).Seconds()
